@@ -62,8 +62,8 @@ func ctxNeverCancelled(w *core.World, fn *core.FuncInfo, depth int, trail *[]str
 }
 
 func checkC11(r *core.Run) {
-	r.Explain = "Decided statically: (C11.batch) a slice read by a closure that the async worker hands to another goroutine (worker pool or go statement) is freshly allocated in the handing function, or the function gives up its own reference (sets the source to nil / a new slice) — an alias of the collector's buffer, which is reset with [:0] and appended to again, would be overwritten before the closure runs; (C11.accept) the async worker's BranchCommit answers 'committed' only on paths where the request was put on the commit queue; an arm that gives up on ctx.Done() is tolerated only if every caller up the call graph (bound 4) passes a context derived from context.Background(); (C11.requeue) in the batch handler every failure branch (resource missing, connection not obtained, undo-log manager missing, delete failed) re-sends every affected item to the queue and does not go on to use what it failed to obtain; (C11.key) each delete is keyed by both identifiers of one element: the two slice arguments of BatchDeleteUndoLog are one-element literals built from the same element, both parameters reach the statement's argument list and the statement builder mentions both columns; (C11.alive) the consumer goroutine is started by the constructor and its loop has no exit. NOT decided: eventual completion, queue-pressure deadlock, batching schedules (liveness)."
-	r.Trusted = []string{"go/types, go/cfg", "fanout.Do with a background context fails only after Close (never called)"}
+	r.Explain = "Decided statically: (C11.handoff) the hand-over of a flushed batch to the commit worker cannot fail while the worker runs: the async worker passes a context that is never done (context.Background) and the pool's Do returns a non-nil error only as the Err() of a context, its queue send sits in a select without a default arm (it waits for room instead of dropping) — so the error branch after Do, which only logs, drops nothing; (C11.batch) a slice read by a closure that the async worker hands to another goroutine (worker pool or go statement) is freshly allocated in the handing function, or the function gives up its own reference (sets the source to nil / a new slice) — an alias of the collector's buffer, which is reset with [:0] and appended to again, would be overwritten before the closure runs; (C11.accept) the async worker's BranchCommit answers 'committed' only on paths where the request was put on the commit queue; an arm that gives up on ctx.Done() is tolerated only if every caller up the call graph (bound 4) passes a context derived from context.Background(); (C11.requeue) in the batch handler every failure branch (resource missing, connection not obtained, undo-log manager missing, delete failed) re-sends every affected item to the queue and does not go on to use what it failed to obtain; (C11.key) each delete is keyed by both identifiers of one element: the two slice arguments of BatchDeleteUndoLog are one-element literals built from the same element, both parameters reach the statement's argument list and the statement builder mentions both columns; (C11.alive) the consumer goroutine is started by the constructor and its loop has no exit. NOT decided: eventual completion, queue-pressure deadlock, batching schedules (liveness)."
+	r.Trusted = []string{"go/types, go/cfg", "the commit worker pool is not closed while branch commits are accepted"}
 	w := r.W
 	aw := w.NamedType("pkg/datasource/sql", "AsyncWorker")
 	bc := r.Anchor("C11.anchor", methodInfo(w, aw, "BranchCommit"), "AsyncWorker.BranchCommit")
@@ -390,6 +390,8 @@ func checkC11(r *core.Run) {
 	}
 	c11Batch(r, aw)
 	r.Floor("C11.batch", 1)
+	c11Handoff(r, aw)
+	r.Floor("C11.handoff", 3)
 	r.Floor("C11.accept", 2)
 	r.Floor("C11.requeue", 6)
 	r.Floor("C11.key", 4)
@@ -570,4 +572,92 @@ func aliasSource(e ast.Expr) ast.Expr {
 		}
 	}
 	return nil
+}
+
+// c11Handoff: handing a batch to the worker pool blocks rather than fails.
+func c11Handoff(r *core.Run, aw *types.Named) {
+	w := r.W
+	if aw == nil {
+		return
+	}
+	var do *core.FuncInfo
+	for _, f := range w.SortedFuncs() {
+		if core.RecvNamed(f.Obj) != aw || w.IsTestFile(f.Decl.Pos()) {
+			continue
+		}
+		info := f.Pkg.TypesInfo
+		for _, cs := range w.Calls(f) {
+			g := w.Info(cs.Static)
+			if g == nil || g.Obj.Name() != "Do" || !strings.HasSuffix(g.Pkg.PkgPath, "/pkg/util/fanout") {
+				continue
+			}
+			do = g
+			r.Fn(f)
+			r.Sites++
+			o := ""
+			if len(cs.Call.Args) > 0 {
+				o = origin(f, cs.Call.Args[0], 4)
+			}
+			// the error of Do must either be impossible (never-done context) or be handled by putting the batch back
+			requeues := false
+			ast.Inspect(f.Decl.Body, func(n ast.Node) bool {
+				if ss, ok := n.(*ast.SendStmt); ok {
+					if sel, ok := ast.Unparen(ss.Chan).(*ast.SelectorExpr); ok {
+						if v, ok := info.Uses[sel.Sel].(*types.Var); ok && v.IsField() {
+							requeues = true
+						}
+					}
+				}
+				return true
+			})
+			r.Check(strings.Contains(o, "context.Background(") || strings.Contains(o, "context.TODO(") || requeues, "C11.handoff", core.ShortKey(f.Obj)+" hands the batch over with a context that is never done", w.Pos(cs.Call.Pos()),
+				"context "+o, "the batch is handed to the worker pool with a context ("+o+") that can end, and the failure branch does not put the batch back: acknowledged branch commits are dropped")
+		}
+	}
+	if do == nil {
+		r.Anchor("C11.handoff", nil, "call of fanout.(*Fanout).Do from the async worker")
+		return
+	}
+	r.Fn(do)
+	info := do.Pkg.TypesInfo
+	isCtxErr := func(e ast.Expr) bool {
+		c, ok := ast.Unparen(e).(*ast.CallExpr)
+		if !ok || len(c.Args) != 0 {
+			return false
+		}
+		sel, ok := ast.Unparen(c.Fun).(*ast.SelectorExpr)
+		if !ok || sel.Sel.Name != "Err" {
+			return false
+		}
+		t := info.TypeOf(sel.X)
+		return t != nil && t.String() == "context.Context"
+	}
+	ast.Inspect(do.Decl.Body, func(n ast.Node) bool {
+		switch x := n.(type) {
+		case *ast.FuncLit:
+			return false
+		case *ast.ReturnStmt:
+			if len(x.Results) != 1 || isNilIdent(info, x.Results[0]) {
+				return true
+			}
+			r.Sites++
+			r.Check(isCtxErr(x.Results[0]), "C11.handoff", core.ShortKey(do.Obj)+" fails only with the Err() of a context: return "+core.ExprString(x.Results[0]), w.Pos(x.Pos()), "context error",
+				"Do can fail for a reason other than a finished context ("+core.ExprString(x.Results[0])+"): the async worker only logs that failure, so the whole batch of acknowledged branch commits is dropped and their undo logs are never deleted")
+		case *ast.SelectStmt:
+			sends, hasDefault := false, false
+			for _, c := range x.Body.List {
+				cc := c.(*ast.CommClause)
+				if cc.Comm == nil {
+					hasDefault = true
+				} else if _, ok := cc.Comm.(*ast.SendStmt); ok {
+					sends = true
+				}
+			}
+			if sends {
+				r.Sites++
+				r.Check(!hasDefault, "C11.handoff", core.ShortKey(do.Obj)+" waits for room in the queue", w.Pos(x.Pos()), "select without default", "the queue send has a default arm: when every worker is busy and the buffer is full the callback is not queued")
+			}
+		}
+		return true
+	})
 }
